@@ -148,6 +148,8 @@ impl Q32E2 {
             }
             u_a
         };
+        #[cfg(softposit_verif)]
+        crate::verif_trace::qround(32, self.to_bits(), P32E2::from_bits(u_a).with_sign(sign).to_bits() as u64);
         P32E2::from_bits(u_a).with_sign(sign)
     }
 }
